@@ -176,10 +176,13 @@ end
 /-- the finalizer handed to this Add / Wait call has not been stored or run yet -/
 def Ctl.unconsumed (c : Ctl) : Bool := !c.panicking && c.stack.any fun fr => mentionsAddL fr.body
 
+def Head.isStore : Head → Bool
+  | .stmt .appendFinalizer | .stmt .runNow => true
+  | _ => false
+
 def lfPend (b : Bool) (c : Ctl) : Bool :=
-  (match c.head with
-   | .stmt .appendFinalizer | .stmt .runNow => c.unconsumed && !(nextCtl P c b).unconsumed
-   | _ => !(nextCtl P c b).unconsumed || c.unconsumed)
+  (if c.head.isStore then c.unconsumed && !(nextCtl P c b).unconsumed
+   else !(nextCtl P c b).unconsumed || c.unconsumed)
   && (!c.head.isFinish || !c.unconsumed)
 
 theorem lfPend_all (b : Bool) : reach.all (lfPend b) = true := by cases b <;> decide +kernel
@@ -239,13 +242,28 @@ def lfSubHeld (c : Ctl) : Bool :=
 
 theorem lfSubHeld_all : reach.all lfSubHeld = true := by decide +kernel
 
+def Head.isAppend : Head → Bool
+  | .stmt .appendFinalizer => true
+  | _ => false
+
+def Head.isDoneTest : Head → Bool
+  | .stmt (.ifFld .done 1 _ _) => true
+  | _ => false
+
+theorem Head.isAppend_iff {h : Head} : h.isAppend = true ↔ h = .stmt .appendFinalizer := by
+  cases h with
+  | stmt s => cases s <;> simp [Head.isAppend]
+  | _ => simp [Head.isAppend]
+
+theorem Head.isDoneTest_iff {h : Head} (hd : h.isDoneTest = true) : ∃ x y, h = .stmt (.ifFld .done 1 x y) := by
+  unfold Head.isDoneTest at hd
+  split at hd
+  · exact ⟨_, _, rfl⟩
+  · cases hd
+
 /-- `appendFinalizer` is reached only from the else-branch of `if s.done` -/
 def lfAppend (b : Bool) (c : Ctl) : Bool :=
-  match (nextCtl P c b).head, c.head with
-  | .stmt .appendFinalizer, .stmt (.ifFld .done 1 _ _) => !b
-  | .stmt .appendFinalizer, .stmt .appendFinalizer => true
-  | .stmt .appendFinalizer, _ => false
-  | _, _ => true
+  !(nextCtl P c b).head.isAppend || (c.head.isDoneTest && !b) || c.head.isAppend
 
 theorem lfAppend_all (b : Bool) : reach.all (lfAppend b) = true := by cases b <;> decide +kernel
 
@@ -258,6 +276,16 @@ def lfIsClosed (b : Bool) (c : Ctl) : Bool :=
    | _ => false)
 
 theorem lfIsClosed_all (b : Bool) : (reachM .subIsClosed).all (lfIsClosed b) = true := by cases b <;> decide +kernel
+
+/-- a call starts outside every region the teardown invariants talk about -/
+def lfEntry (c : Ctl) : Bool :=
+  !c.doneKnown && !c.owning && !c.afterSwap && (match c.head with | .stmt .appendFinalizer => false | _ => true)
+
+theorem entry_tear (c : ApiCall) : lfEntry (Ctl.entry P c) = true := entry_fact (Q := lfEntry) (by decide) c
+
+theorem entry_waitOpen (f : FinId) : (Ctl.entry P (.wait f)).waitOpen = true := by
+  show (Ctl.entry P (.wait 0)).waitOpen = true
+  decide
 
 theorem entry_armed (c : ApiCall) : (Ctl.entry P c).armed = none := by
   have := entry_fact (Q := fun c => c.armed.isNone && !c.inside) (by decide) c
